@@ -155,6 +155,7 @@ static int drv_log(int argc, char** argv) {
     return 2;
   }
   Json::Value scn = load_json(argv[0]);
+  g_yield_ppm = scn.get("mutex_yield_ppm", 0).asUInt();
   signal(SIGPIPE, SIG_DFL);
   std::string kpath = std::string(argv[1]) + ".kmsg";
   int kfd = ::open(kpath.c_str(), O_WRONLY | O_CREAT | O_TRUNC, 0644);
@@ -295,6 +296,7 @@ static int drv_stats(int argc, char** argv) {
     return 2;
   }
   Json::Value scn = load_json(argv[0]);
+  g_yield_ppm = scn.get("mutex_yield_ppm", 0).asUInt();
   // SIGPIPE keeps its default disposition, exactly as in the oomd daemon
   signal(SIGPIPE, SIG_DFL);
   std::string dir = "/dev/shm/vst." + std::to_string(getpid());
@@ -563,6 +565,7 @@ static int drv_watch(int argc, char** argv) {
     return 2;
   }
   Json::Value scn = load_json(argv[0]);
+  g_yield_ppm = scn.get("mutex_yield_ppm", 0).asUInt();
   std::string dir = "/dev/shm/vwt." + std::to_string(getpid());
   rmtree(dir);
   std::string dd = dir + "/dropins";
